@@ -274,14 +274,28 @@ def coq_check(pid, timeout=1500):
         f.write(out)
     res['log'] = out[-6000:]
     if rc == 0 and os.path.exists(os.path.join(cdir, 'Properties.vo')):
-        # Print Assumptions output comes from (re)compiling Properties.v; make may have
-        # skipped it when up to date, so always re-run coqc on that one file.
-        p = sh('coqc $(grep -E "^-[QR]" _CoqProject | tr "\\n" " ") Properties.v 2>&1', cwd=cdir, timeout=timeout)
-        pa = p.stdout.decode(errors='replace')
-        if p.returncode != 0:
-            rc = p.returncode
-            out = pa
-        else:
+        # Print Assumptions output comes from compiling Properties.v.  make has just brought every .vo
+        # up to date with its sources (so every obligation is re-checked whenever anything it depends on
+        # changed); the printed text is cached per compiled Properties.vo and re-used while that .vo is
+        # unchanged, otherwise Properties.v is compiled once more to capture it.
+        cache = os.path.join(BUILD, pid, 'assumptions.txt')
+        vo = os.path.join(cdir, 'Properties.vo')
+        pa = None
+        if os.path.exists(cache) and os.path.getmtime(cache) >= os.path.getmtime(vo) \
+                and os.environ.get('VERIF_NO_PA_CACHE') != '1':
+            pa = open(cache).read()
+        if pa is None:
+            p = sh('coqc $(grep -E "^-[QR]" _CoqProject | tr "\\n" " ") Properties.v 2>&1', cwd=cdir, timeout=timeout)
+            pa = p.stdout.decode(errors='replace')
+            if p.returncode != 0:
+                rc = p.returncode
+                out = pa
+                pa = None
+            else:
+                with open(cache, 'w') as f:
+                    f.write(pa)
+                os.utime(cache, None)
+        if pa is not None:
             res['assumptions'] = parse_assumptions(pa, names)
     if rc != 0:
         m = re.search(r'File "\./([^"]+)", line (\d+)', out)
